@@ -336,6 +336,8 @@ impl<'de, R: Reader<'de>> Deserializer<R> {
         V: de::Visitor<'de>,
     {
         let (raw, status) = self.parser.skip_one()?;
+        // the raw text is handed out as `&str`
+        self.parser.check_invalid_utf8(false)?;
         if status == ParseStatus::HasEscaped {
             visitor.visit_str(as_str(raw))
         } else {
@@ -347,7 +349,10 @@ impl<'de, R: Reader<'de>> Deserializer<R> {
     where
         V: de::Visitor<'de>,
     {
-        let val = ManuallyDrop::new(self.parser.get_owned_lazyvalue(true)?);
+        let val = self.parser.get_owned_lazyvalue(true)?;
+        // the raw text is handed out as `&str`
+        self.parser.check_invalid_utf8(false)?;
+        let val = ManuallyDrop::new(val);
         // #Safety
         // the json is validate before parsing json, and we pass the document using visit_bytes
         // here.
@@ -654,6 +659,9 @@ impl<'de, 'a, R: Reader<'de>> de::Deserializer<'de> for &'a mut Deserializer<R> 
         let Some(peek) = self.parser.skip_space() else {
             return Err(self.parser.error(ErrorCode::EofWhileParsing));
         };
+        // invalid UTF-8 is tolerated inside the byte string only: what was skipped before it
+        // (ignored or lazy values) must not be forgiven by the re-arming below
+        tri!(self.parser.check_invalid_utf8(false));
 
         let value = match peek {
             b'"' => match tri!(self.parser.parse_string_raw(&mut self.scratch)) {
@@ -911,6 +919,7 @@ impl<'de, 'a, R: Reader<'de>> de::Deserializer<'de> for &'a mut Deserializer<R> 
     {
         // NOTE: we use faster skip, and will not validate the skipped parts.
         tri!(self.parser.skip_one());
+        tri!(self.parser.check_invalid_utf8(false));
         visitor.visit_unit()
     }
 }
